@@ -261,6 +261,16 @@ type BabbageBlockHeader struct {
 	Signature []byte
 }
 
+// MarshalCBOR returns the stored CBOR of a decoded BabbageBlockHeader so that
+// re-serialising it reproduces the wire bytes; an object built in memory is
+// encoded from its fields
+func (x *BabbageBlockHeader) MarshalCBOR() ([]byte, error) {
+	if x.Cbor() != nil {
+		return x.Cbor(), nil
+	}
+	return cbor.EncodeGeneric(x)
+}
+
 type BabbageBlockHeaderBody struct {
 	cbor.StructAsArray
 	cbor.DecodeStoreCbor
@@ -374,6 +384,16 @@ type BabbageTransactionBody struct {
 	TxCollateralReturn      *BabbageTransactionOutput                     `cbor:"16,keyasint,omitempty"`
 	TxTotalCollateral       uint64                                        `cbor:"17,keyasint,omitempty"`
 	TxReferenceInputs       cbor.SetType[shelley.ShelleyTransactionInput] `cbor:"18,keyasint,omitempty,omitzero"`
+}
+
+// MarshalCBOR returns the stored CBOR of a decoded BabbageTransactionBody so that
+// re-serialising it reproduces the wire bytes; an object built in memory is
+// encoded from its fields
+func (x *BabbageTransactionBody) MarshalCBOR() ([]byte, error) {
+	if x.Cbor() != nil {
+		return x.Cbor(), nil
+	}
+	return cbor.EncodeGeneric(x)
 }
 
 func (b *BabbageTransactionBody) UnmarshalCBOR(cborData []byte) error {
